@@ -10,7 +10,8 @@ from datetime import datetime, time as dtime, timedelta, timezone
 from fractions import Fraction
 
 sys.path.insert(0, os.path.dirname(os.path.abspath(__file__)))
-from lib import Check, guarded, zlit, blit, listlit   # noqa: E402
+from lib import Check, REPO, guarded, zlit, blit, listlit   # noqa: E402
+import gen_track                                                # noqa: E402  (tools/: translator tie for class Track)
 
 import logging                                                  # noqa: E402
 logging.disable(logging.CRITICAL)
@@ -474,6 +475,8 @@ def random_op(rng, items, nid):
 def main():
     ck = Check('C17')
     ck.build_theories(['theories/Props/C17.vo', 'theories/Corr/CollK.vo'])
+    rep = gen_track.main(REPO, os.path.join(ck.rundir, 'TrackGen.v'))     # class Track regenerated from collections.py ...
+    ck.gen('TrackGen.v', rep, 'TrackGenEq.v')                              # ... equals the model CollM.v for all arguments
     ck.props('Props/C17.v')
     rng = ck.rng
     quick = ck.tier == 'quick'
